@@ -64,7 +64,10 @@ def type_name(t):
 
 
 def to_dict(m):
-    d = {"task_uuid": "uuid-%d" % m["u"], "task_level": list(m["l"]), "timestamp": 1.0 + m["id"], "id": m["id"]}
+    # clocks are not synchronised between the machines/processes that log one task (remote sub-tasks), and wall clocks
+    # step backwards: timestamps of odd-numbered tasks are scrambled, those of even-numbered ones increase
+    ts = 1.0 + m["id"] if m["u"] % 2 == 0 else float((m["id"] * 7919 + 13) % 101)
+    d = {"task_uuid": "uuid-%d" % m["u"], "task_level": list(m["l"]), "timestamp": ts, "id": m["id"]}
     if m["s"] is None:
         d["message_type"] = type_name(m["t"])
     else:
